@@ -21,6 +21,10 @@ pub enum WeightRegime {
     Extreme,
     /// weights of very different magnitude in one graph: 1, 1+ulp, 1e-17-scale, 2^24 and 2^24+1
     MixedScale,
+    /// exactly summable weights that differ in the 11th-13th digit: 1 + k 2^-j (k = 0..4, j = 35..41), also around 0.5 and 2
+    FineDyadic,
+    /// finite positive weights whose sums or products overflow: 1e308, 5e307, MAX/4, next to 1 and 1e150
+    Overflowing,
 }
 
 impl WeightRegime {
@@ -40,6 +44,8 @@ impl WeightRegime {
             WeightRegime::Tiny => (1 + rng.below(32)) as f64 / 8.0 * 1e-17,
             WeightRegime::NearEqual => *rng.pick(&[0.3, 0.30000000000000004, 1.0, 1.0000000000000002, 0.7, 0.7000000000000001, 2.5, 0.1, 0.2, 0.09999999999999999]),
             WeightRegime::MixedScale => *rng.pick(&[1.0, 1.0000000000000002, 1.0, 2.5e-17, 5e-17, 1e-17, 16777216.0, 16777217.0, 0.5, 1.00000001]),
+            WeightRegime::FineDyadic => *rng.pick(&[1.0, 1.0, 1.0, 2.0, 0.5]) + rng.below(5) as f64 * (0.5f64).powi(*rng.pick(&[41, 41, 40, 38, 35])),
+            WeightRegime::Overflowing => *rng.pick(&[1e308, 5e307, f64::MAX / 4.0, 1e308, 1.0, 1e150, 1e160]),
             WeightRegime::Extreme => *rng.pick(&[1e308, f64::MAX / 4.0, f64::INFINITY, 1.0, 1e-308, f64::MAX]),
             WeightRegime::Mixed => {
                 if rng.chance(1, 3) {
@@ -447,6 +453,174 @@ fn gen_big_history(rng: &mut Rng, o: &HistOpts) -> Vec<Op> {
     ops
 }
 
+/// Thresholds at which an implementation may switch strategy (serial -> parallel, small-vector -> map) sit
+/// at thousands of edges: a history that loads 2 100 - 12 500 edges in a few batches, then a short tail.
+pub fn gen_huge_history(rng: &mut Rng, specs: Specs, regime: WeightRegime, derived: bool) -> Vec<Op> {
+    let m_target = *rng.pick(&[2100usize, 2600, 4200, 5000, 8300, 9000, 10500, 12500]);
+    let cap = |n: usize| if specs.directed { n * (n - 1) } else { n * (n - 1) / 2 };
+    let mut n = 40;
+    while cap(n) * 3 / 5 < m_target {
+        n += 5;
+    }
+    n += rng.below(20);
+    let mut names: Vec<String> = (0..n).map(|i| format!("{}{}", ["h", "H", "n", "q"][i % 4], i)).collect();
+    rng.shuffle(&mut names);
+    let mut ops = vec![Op::AddNodes(names.iter().map(|s| (s.clone(), if rng.chance(1, 8) { Some(rng.below(1000) as u32) } else { None })).collect())];
+    // distinct pairs (as stored: unordered when undirected), then the extras the kind allows
+    let mut pairs: Vec<(usize, usize)> = vec![];
+    let p_num = (m_target * 1000 / cap(n)) as u32;
+    for u in 0..n {
+        for v in 0..n {
+            if u == v || (!specs.directed && u > v) {
+                continue;
+            }
+            if rng.chance(p_num, 1000) {
+                pairs.push(if !specs.directed && rng.chance(1, 2) { (v, u) } else { (u, v) });
+            }
+        }
+    }
+    let distinct_only = !specs.multi && specs.dedupe == Dedupe::Error;
+    if !distinct_only {
+        // second edges on existing pairs: parallel edges, or inputs for the duplicate policy
+        for _ in 0..rng.range(0, pairs.len() / 20) {
+            let p = *rng.pick(&pairs);
+            pairs.push(if !specs.directed && rng.chance(1, 2) { (p.1, p.0) } else { p });
+        }
+    }
+    if specs.self_loops || specs.slf == Slf::Drop {
+        for _ in 0..rng.range(0, 6) {
+            let u = rng.below(n);
+            pairs.push((u, u));
+        }
+    }
+    rng.shuffle(&mut pairs);
+    let mut tok = 0u32;
+    let es: Vec<E> = pairs
+        .iter()
+        .map(|&(u, v)| {
+            tok += 1;
+            E { u: names[u].clone(), v: names[v].clone(), w: wbits(regime.draw(rng)), attr: if tok % 5 == 0 { None } else { Some(tok) } }
+        })
+        .collect();
+    let mut es = es;
+    if specs.multi && !es.is_empty() {
+        // the very same edge value again (a caller re-submitting part of a batch passes the same Arcs)
+        for _ in 0..rng.range(0, es.len() / 100 + 1) {
+            let e = es[rng.below(es.len().min(4000))].clone();
+            let at = rng.below(es.len() + 1);
+            es.insert(at, e);
+        }
+    }
+    match rng.below(3) {
+        0 => ops.push(Op::AddEdges(es)),
+        1 => {
+            // two or three batches
+            let k = rng.range(2, 3);
+            let size = es.len() / k + 1;
+            for c in es.chunks(size.max(1)) {
+                ops.push(Op::AddEdges(c.to_vec()));
+            }
+        }
+        _ => {
+            let ns = match ops.pop() {
+                Some(Op::AddNodes(ns)) => ns,
+                _ => vec![],
+            };
+            ops.push(Op::Restart(specs, ns, es));
+        }
+    }
+    // a short tail on the loaded graph
+    let mut model = Model::new(specs);
+    for op in &ops {
+        model.apply(op);
+    }
+    let mut g = HistGen { rng, names: names.clone(), regime, token: tok, model, dup_bias: 40 };
+    for _ in 0..g.rng.range(1, 4) {
+        let op = match g.rng.below(if derived { 9 } else { 4 }) {
+            0 => Op::AddNode(g.node()),
+            1 => Op::AddEdges(g.batch()),
+            2 | 3 => Op::AddEdge(g.edge()),
+            4 | 5 => Op::Reverse,
+            6 => Op::ToSingle,
+            7 => Op::SetWeights(wbits(*g.rng.pick(&[1.0, 0.5, f64::NAN]))),
+            _ => {
+                // most of the graph, or a small part of it
+                let keep = if g.rng.chance(2, 3) { 9 } else { 1 };
+                let mut s: Vec<String> = names.iter().filter(|_| g.rng.chance(keep, 10)).cloned().collect();
+                if keep == 1 {
+                    // a small selection around a few stored edges
+                    s.truncate(g.rng.range(0, 6));
+                    for _ in 0..g.rng.range(1, 4) {
+                        if !g.model.edges.is_empty() {
+                            let i = g.rng.below(g.model.edges.len());
+                            let (a, b) = (g.model.edges[i].u.clone(), g.model.edges[i].v.clone());
+                            s.push(a);
+                            s.push(b);
+                        }
+                    }
+                }
+                g.rng.shuffle(&mut s);
+                Op::Subgraph(s)
+            }
+        };
+        g.model.apply(&op);
+        ops.push(op);
+    }
+    ops
+}
+
+/// A dense graph (one to three dense blocks) with 8 200 - 12 500 stored edges, or 2 100 - 5 000.
+pub fn gen_dense_graph(rng: &mut Rng, directed: bool, multi: bool, self_loops: bool, regime: WeightRegime) -> (Specs, Vec<Op>) {
+    let specs = Specs::kind(directed, multi, self_loops);
+    let m_target = *rng.pick(&[2100usize, 4200, 8300, 8300, 9000, 10500, 12500]);
+    let k = *rng.pick(&[1usize, 1, 2, 3]);
+    let cap = |b: usize| if directed { b * (b - 1) } else { b * (b - 1) / 2 };
+    let mut b = 20;
+    while k * cap(b) * 7 / 10 < m_target {
+        b += 3;
+    }
+    let isolated = rng.below(4);
+    let n = k * b + isolated;
+    let names = node_names(rng, n);
+    let p_num = (m_target * 1000 / (k * cap(b))) as u32;
+    let mut pairs: Vec<(usize, usize)> = vec![];
+    for blk in 0..k {
+        for u in blk * b..(blk + 1) * b {
+            for v in blk * b..(blk + 1) * b {
+                if u == v || (!directed && u > v) {
+                    continue;
+                }
+                if rng.chance(p_num, 1000) {
+                    pairs.push(if !directed && rng.chance(1, 2) { (v, u) } else { (u, v) });
+                }
+            }
+        }
+        // one-way bridges between consecutive blocks of a digraph (weak but not strong connection)
+        if directed && blk + 1 < k && rng.chance(1, 2) {
+            pairs.push((blk * b, (blk + 1) * b));
+        }
+    }
+    if self_loops {
+        for _ in 0..rng.range(0, 5) {
+            let u = rng.below(n);
+            pairs.push((u, u));
+        }
+    }
+    if multi {
+        for _ in 0..rng.range(0, pairs.len() / 25) {
+            let p = *rng.pick(&pairs);
+            pairs.push(if !directed && rng.chance(1, 2) { (p.1, p.0) } else { p });
+        }
+    }
+    rng.shuffle(&mut pairs);
+    let mut ops: Vec<Op> = vec![Op::AddNodes(names.iter().map(|s| (s.clone(), None)).collect())];
+    let es: Vec<E> = pairs.iter().map(|&(u, v)| E { u: names[u].clone(), v: names[v].clone(), w: wbits(regime.draw(rng)), attr: None }).collect();
+    for c in es.chunks(500) {
+        ops.push(Op::AddEdges(c.to_vec()));
+    }
+    (specs, ops)
+}
+
 // ---------------------------------------------------------------------------------------------
 // structured graphs for the algorithm properties
 
@@ -471,6 +645,9 @@ pub enum Shape {
     Wheel,
     /// small cliques joined in a ring (several Louvain levels)
     RingOfCliques,
+    /// a hub joined to 3-5 identical parts (cliques, cycles or paths of equal weight) by spokes whose weights
+    /// are graded in steps of 2^-41 ... 2^-35 or one ulp: alternatives that are nearly, but not exactly, tied
+    GradedHub,
 }
 pub const ALL_SHAPES: &[Shape] = &[Shape::Gnp, Shape::Path, Shape::Cycle, Shape::Star, Shape::Grid, Shape::Cliques, Shape::LayeredDag, Shape::Union, Shape::Tree, Shape::Bipartite, Shape::NestedScc];
 
@@ -684,6 +861,27 @@ pub fn shape_pairs(rng: &mut Rng, shape: Shape, n: usize, directed: bool) -> Vec
             }
             e.retain(|(u, v)| u != v && *u < n && *v < n);
         }
+        Shape::GradedHub => {
+            let size = rng.range(3, 5);
+            let kind = rng.below(3);
+            let mut lo = 1;
+            while lo + size <= n {
+                for i in 0..size {
+                    for j in i + 1..size {
+                        let joined = match kind {
+                            0 => true,
+                            1 => j == i + 1 || (i == 0 && j == size - 1),
+                            _ => j == i + 1,
+                        };
+                        if joined {
+                            e.push((lo + i, lo + j));
+                        }
+                    }
+                }
+                e.push((0, lo));
+                lo += size;
+            }
+        }
         Shape::NestedScc => {
             // cycles sharing nodes, cycles of cycles, DAG edges and back edges
             let mut i = 0;
@@ -765,8 +963,21 @@ pub fn gen_graph(rng: &mut Rng, o: &GraphOpts) -> (Specs, Vec<Op>) {
     let mut ops: Vec<Op> = vec![];
     // nodes first, in name-list order (which is a random permutation of sort order)
     ops.push(Op::AddNodes(names.iter().map(|s| (s.clone(), None)).collect()));
+    let graded = shape == Shape::GradedHub && o.regime != WeightRegime::AllNan;
+    let delta = if graded { *rng.pick(&[(0.5f64).powi(41), (0.5f64).powi(41), (0.5f64).powi(40), (0.5f64).powi(38), (0.5f64).powi(35), f64::EPSILON]) } else { 0.0 };
+    let mut grade = 0;
     for (u, v) in pairs {
-        let w = o.regime.draw(rng);
+        let w = if graded {
+            // equal weights everywhere, the spokes of the hub graded
+            if (u == 0 || v == 0) && u != v {
+                grade += 1;
+                1.0 + (grade - 1) as f64 * delta
+            } else {
+                1.0
+            }
+        } else {
+            o.regime.draw(rng)
+        };
         ops.push(Op::AddEdge(E { u: names[u].clone(), v: names[v].clone(), w: wbits(w), attr: None }));
     }
     (specs, ops)
